@@ -54,12 +54,18 @@ class RealDom:
     name = 'REAL'
     symbolic = True
 
-    def __init__(self):
+    def __init__(self, const_symbols=None):
         self.cnt = 0
+        # idealisation of irrational literals: [(double value, z3 real term)]; a literal within 4 ulp of a
+        # listed value is replaced by the exact algebraic/symbolic term (documented per check)
+        self.const_symbols = list(const_symbols or [])
 
     def const(self, f):
         if f != f or f in (math.inf, -math.inf):
             return f
+        for v, term in self.const_symbols:
+            if f == v or (v != 0 and abs(f - v) <= 4 * abs(v) * 2.220446049250313e-16):
+                return term
         return Fraction(f)
 
     def is_conc(self, v):
